@@ -399,6 +399,79 @@ func c08(c *Ctx) {
 	// the announcement bytes and every other package-level table of the framing code are constants in all but
 	// name: nothing in packages mode and transport writes them (a Detect that reads the peer's bytes into a slice of
 	// the announcement array changes what every later connection announces)
+	// the transport hands frames on as they are: what the envelope parser sees is what the mode reader returned,
+	// what the mode writer gets is what Serialize returned (a trimmed, re-sliced or re-read frame shifts everything)
+	r.Rule("R08.P", "transport.ReadMsg passes the frame the mode reader returned, unchanged, to the envelope parsers; transport.WriteMsg passes what Serialize returned, unchanged, to the mode writer", 2)
+	if f := c.fn("R08.P", load.TransPkg, "*transport", "ReadMsg"); f != nil {
+		var frame ssa.Value
+		for _, cs := range an.Calls(f) {
+			if cs.Common.IsInvoke() && cs.Common.Method.Name() == "ReadMsg" {
+				for _, ref := range *cs.Instr.(ssa.Value).Referrers() {
+					if ex, ok := ref.(*ssa.Extract); ok && ex.Index == 0 {
+						frame = ex
+					}
+				}
+			}
+		}
+		n := 0
+		var bad []string
+		for _, cs := range an.Calls(f) {
+			if !strings.HasSuffix(cs.Name, "messages.DeserializeEncrypted") && !strings.HasSuffix(cs.Name, "messages.DeserializeUnencrypted") && !strings.HasSuffix(cs.Name, "transport.isPacketEncrypted") {
+				continue
+			}
+			n++
+			if args := an.CallArgs(cs.Common); len(args) == 0 || frame == nil || args[0] != frame {
+				bad = append(bad, shortCallee(cs.Name)+" at "+c.pos(cs.Pos())+" is given something other than the frame read")
+			}
+		}
+		if frame == nil || n < 3 {
+			r.Undecide("R08.P", "frame:read-verbatim", c.pos(f.Pos()), sprintf("mode reader call found: %v, %d parser call(s)", frame != nil, n))
+		} else {
+			r.Check(len(bad) == 0, "R08.P", "frame:read-verbatim", c.pos(f.Pos()), sprintf("%d parser calls; %s", n, strings.Join(bad, "; ")))
+		}
+	}
+	if f := c.fn("R08.P", load.TransPkg, "*transport", "WriteMsg"); f != nil {
+		n := 0
+		var bad []string
+		var leaves func(v ssa.Value, seen map[ssa.Value]bool)
+		leaves = func(v ssa.Value, seen map[ssa.Value]bool) {
+			if seen[v] {
+				return
+			}
+			seen[v] = true
+			switch x := v.(type) {
+			case *ssa.Phi:
+				for _, e := range x.Edges {
+					leaves(e, seen)
+				}
+				return
+			case *ssa.Const:
+				if x.IsNil() {
+					return // the zero value of the variable on paths that return before the write
+				}
+			case *ssa.Extract:
+				if call, ok := x.Tuple.(*ssa.Call); ok && x.Index == 0 && strings.HasSuffix(an.CalleeName(call.Common()), ").Serialize") {
+					return
+				}
+			}
+			bad = append(bad, "the bytes handed to the mode writer include "+v.String()+" ("+c.pos(v.Pos())+")")
+		}
+		for _, cs := range an.Calls(f) {
+			if cs.Common.IsInvoke() && cs.Common.Method.Name() == "WriteMsg" {
+				n++
+				leaves(cs.Common.Args[0], map[ssa.Value]bool{})
+			}
+		}
+		if n == 0 {
+			r.Undecide("R08.P", "frame:written-verbatim", c.pos(f.Pos()), "no call of the mode writer in transport.WriteMsg")
+		} else {
+			r.Check(len(bad) == 0, "R08.P", "frame:written-verbatim", c.pos(f.Pos()), strings.Join(bad, "; "))
+		}
+	}
+	r.Rule("R08.B", "no function of packages mode and transport writes through a []byte parameter (WriteMsg's message stays what the caller handed over)", 2)
+	isReader := func(g *ssa.Function, idx int) bool { return g.Name() == "Read" } // io.Reader: the argument is the buffer to fill
+	c.paramsUntouched("R08.B", load.ModePkg, isReader)
+	c.paramsUntouched("R08.B", load.TransPkg, isReader)
 	r.Rule("R08.G", "no function of packages mode and transport writes a package-level variable or reads into / appends to / copies into the storage of one", 1)
 	{
 		var entries []*ssa.Function
